@@ -351,8 +351,8 @@ Definition step (w : world) (l : list N) : option (R (world * list N) * list N) 
       Some (let! d := write_payload (fst vr) (snd vr) in
             let '(fs', r) := h_write fs h (h_pos h) d in
             let h' := match r, hk h with
-                      | Rok n, HFile i =>
-                        set_pos h (write_pos (idata (get_inode fs i)) (h_pos h) (h_app h) + n)
+                      | Rok _, HFile i =>
+                        set_pos h (snd (seq_write (idata (get_inode fs i)) (h_pos h) (h_app h) d))
                       | _, _ => h
                       end in
             Ok (with_slot (with_fs w fs') s (Some h'), enc_wres r), l)
@@ -376,8 +376,9 @@ Definition step (w : world) (l : list N) : option (R (world * list N) * list N) 
       if negb (h_seq h) then ret (w, SKIP) l else
       let '(fs', r) := h_writev fs h (h_pos h) (voffer_write ms) in
       let h' := match r, hk h with
-                | Rok n, HFile i =>
-                  set_pos h (write_pos (idata (get_inode fs i)) (h_pos h) (h_app h) + n)
+                | Rok _, HFile i =>
+                  set_pos h (snd (seq_write (idata (get_inode fs i)) (h_pos h) (h_app h)
+                                            (concat (voffer_write ms))))
                 | _, _ => h
                 end in
       ret (with_slot (with_fs w fs') s (Some h'), enc_wres r) l
